@@ -218,6 +218,10 @@ def oracle_ble(case, out):
             if out["read"] != "err value":
                 bad.append(("ble-read:wrong-tid-accepted", f"fragment with a foreign transaction id not rejected: {out['read'][:80]} "
                             f"(faults {rs['faults']}, cut {rs['lens']})"))
+        elif exp == "reject-status":
+            if out["read"].startswith("ok"):
+                bad.append(("ble-read:undefined-status-accepted", f"response with undefined status byte {rs['faults'][0][2]} is returned as "
+                            f"'{out['read'][:60]}' instead of failing the request"))
         elif exp == "reject-flag":
             if out["read"] != "err value":
                 bad.append(("ble-read:missing-flag-accepted", f"continuation without the 0x80 flag not rejected: {out['read'][:80]} "
@@ -281,7 +285,7 @@ def add_fault(r, rs, enc):
         return None
     if k == "badstatus":
         rs["faults"] = [("badstatus", 0, r.choice([7, 8, 0x80, 0xFF, r.randrange(7, 256)]))]
-        return None
+        return "reject-status"
     if k == "extra":
         rs["faults"] = [("extra", 0, r.randrange(1, 3))]
         return None
@@ -322,6 +326,8 @@ def gen_ble(tier, r):
         for ln in range(0, 201):
             for mode in ("p", "c"):
                 rs = mk_resp(r)
+                if mode == "c" and tier == "quick" and (fs + ln) % 3:
+                    continue             # quick: every plain cell, every third cell under real keys (thorough: all)
                 add(fs, ln, mode, rs, "ok", "grid")
     # (2) realistic sizes
     for fs in REAL_FS:
@@ -385,7 +391,7 @@ def gen_ble(tier, r):
                     rs = dict(control=2, status=0, body=body, lens=lens, faults=[("noflag", j, 0)])
                     add(60, 2, "p" if j % 2 else "c", rs, "reject-flag", "faultgrid")
     # (5) random faults
-    for i in range(2500 if tier == "quick" else 40000):
+    for i in range(1500 if tier == "quick" else 40000):
         mode = r.choice("pc")
         rs = mk_resp(r, maxlen=40)
         exp = add_fault(r, rs, mode == "c")
@@ -433,62 +439,98 @@ class HistChar:
 
 
 def gen_ble_hist(tier, r):
+    """Histories (char, encrypted?, body length) on one connection; the last step may carry a response fault:
+    'stale' = a complete, well-formed answer to ANOTHER transaction id (the previous request's), 'badstatus' = an
+    undefined status byte.  Session keys start at the first encrypted step and are dropped by a plain step."""
     steps = [(ch, enc, ln) for ch in (0, 1) for enc in (False, True) for ln in HIST_LENS]
     cases = []
     for n in (1, 2, 3):
-        for h in itertools.product(steps, repeat=n):
+        for hi, h in enumerate(itertools.product(steps, repeat=n)):
+            if n == 3 and tier == "quick" and hi % 4 != 1:
+                continue
             k = len(cases)
-            cases.append(dict(steps=list(h), mtu=HIST_MTUS[k % 6], mwwr=HIST_MWWR[(k // 6 + k) % 6], stream="hist"))
-    for _ in range(300 if tier == "quick" else 5000):
+            cases.append(dict(steps=list(h), mtu=HIST_MTUS[k % 6], mwwr=HIST_MWWR[(k // 6 + k) % 6], stream="hist",
+                              fault={2: "stale", 4: "badstatus"}.get(k % 6), k0=[0, 0, 7, 255, 65535, 1 << 32][k % 6]))
+    for _ in range(150 if tier == "quick" else 5000):
         n = r.randrange(4, 9)
-        cases.append(dict(steps=[(r.randrange(3), r.random() < 0.5, r.choice([0, 1, 60, 74, 75, 80, 90, 91, 97, 300, 1000])) for _ in range(n)],
-                          mtu=r.choice(HIST_MTUS + [r.randrange(100, 520)]), mwwr=r.choice(HIST_MWWR), stream="hist-random"))
+        cases.append(dict(steps=[(r.randrange(3), r.random() < 0.6, r.choice([0, 1, 60, 74, 75, 80, 90, 91, 97, 300, 1000])) for _ in range(n)],
+                          mtu=r.choice(HIST_MTUS + [r.randrange(100, 520)]), mwwr=r.choice(HIST_MWWR), stream="hist-random",
+                          fault=r.choice([None, None, "stale", "badstatus"]), k0=r.choice([0, 3, 255, 65536, (1 << 32) - 2])))
     return cases
 
 
 async def impl_ble_hist(case, serial):
+    """The real AIOHomeKitBleakClient + ble_request over a whole history; the accessory (reference reassembler +
+    ref.demo_answer) keeps its own receive / send counters for the session."""
     import aiohomekit.controller.ble.client as bc
     from aiohomekit.controller.ble.bleak import AIOHomeKitBleakClient
     from aiohomekit.controller.ble.key import DecryptionKey, EncryptionKey
     from aiohomekit.pdu import OpCode
 
-    st = dict(writes=[], script=[])
+    st = dict(writes=[], script=None, reads=0)
 
     class Radio(AIOHomeKitBleakClient):
         async def write_gatt_char(self, char, data, response=None):
             st["writes"].append(bytes(data))
 
         async def read_gatt_char(self, char):
-            return bytearray(st["script"].pop(0)())
+            if st["script"] is None:
+                st["script"] = st["respond"]()
+            if not st["script"]:
+                raise ScriptExhausted()
+            st["reads"] += 1
+            return bytearray(st["script"].pop(0))
 
     client = Radio(f"C1:7A:{(serial >> 24) & 255:02X}:{(serial >> 16) & 255:02X}:{(serial >> 8) & 255:02X}:{serial & 255:02X}")
     if case["mtu"] is not None:
         client.__dict__["mtu_size"] = case["mtu"]        # the link's negotiated MTU (cached_property slot)
     mtu = client.mtu_size
     chars = [HistChar(0x21 + 4 * i, case["mwwr"]) for i in range(3)]
-    ek = dk = None
-    aw = ar = None
+    ek = dk = aw = ar = None
+    acc = dict(recv=0, send=0)                              # the accessory's nonce counters for the session
+    vctr = dict(e=0, d=0)                                   # plain link: number of writes / reads (what the model counts)
     out = []
+    prev_tid = None
+    nsteps = len(case["steps"])
     for pos, (ch, enc, ln) in enumerate(case["steps"]):
-        if enc and ek is None:                              # pair-verify done: fresh session keys
+        if enc and ek is None:                              # pair-verify done: fresh session keys on both sides
             ek, dk, aw, ar = EncryptionKey(KEY_W), DecryptionKey(KEY_R), ref.Aead(KEY_W), ref.Aead(KEY_R)
+            ek.counter, dk.counter = case["k0"], case["k0"] + 5
+            acc = dict(recv=case["k0"], send=case["k0"] + 5)
         if not enc:                                         # session reset / unauthenticated access
+            if ek is not None or pos == 0:
+                vctr = dict(e=0, d=0)
             ek = dk = aw = ar = None
-        c0 = ek.counter if enc else 0
-        d0 = dk.counter if enc else 0
-        st["writes"].clear()
+        c0 = ek.counter if enc else vctr["e"]
+        d0 = dk.counter if enc else vctr["d"]
+        fault = case["fault"] if pos == nsteps - 1 else None
+        st.update(writes=[], script=None, reads=0)
         body = body_of(ln, pos + ch)
         iid = IIDS[(pos + ln) % len(IIDS)]
         op = BLE_OPS[(pos + ch) % len(BLE_OPS)]
-        info = {}
+        info = dict(tid=None, want=None, frs=None)
 
         def respond():
-            plains = [aw.open(c0 + j, w) if enc else w for j, w in enumerate(st["writes"])]
-            p0 = plains[0] if plains else None
-            info["tid"] = p0[2] if p0 is not None and len(p0) >= 3 else 0
-            f = bytes([0x02, info["tid"], 0])
-            return ar.seal(d0, f) if enc else f
-        st["script"] = [respond]
+            plains = [aw.open(acc["recv"] + j, w) if enc else w for j, w in enumerate(st["writes"])]
+            acc["recv"] += len(plains) if enc else 0
+            rq = ref.acc_reassemble(plains) if all(p is not None for p in plains) else None
+            if rq is None:
+                return []                                   # a conformant accessory does not answer garbage
+            rop, tid, riid, rbody = rq
+            info["tid"] = tid
+            control, status, rb, pieces = ref.demo_answer(rop, tid, riid, rbody)
+            info["want"] = (status, rb)
+            rtid = tid
+            if fault == "stale":
+                rtid = prev_tid if prev_tid is not None and prev_tid != tid else (tid + 1) % 256
+            if fault == "badstatus":
+                status = 7 + (pos * 37 + ln) % 249
+            frs = ref.resp_fragments(control, rtid, status, rb, pieces, cont_controls=[0x80] * (len(pieces) - 1))
+            info["frs"] = frs
+            wire = [ar.seal(acc["send"] + j, f) for j, f in enumerate(frs)] if enc else list(frs)
+            acc["send"] += len(frs) if enc else 0
+            return wire
+        st["respond"] = respond
         try:
             status, rbody = await bc.ble_request(client, ek, dk, OpCode(op), chars[ch], iid, body)
             read = f"ok {int(status.value)} {hx(rbody)}"
@@ -496,20 +538,28 @@ async def impl_ble_hist(case, serial):
             read = exc_token(e)
         writes = list(st["writes"])
         plains = [aw.open(c0 + j, w) if enc else w for j, w in enumerate(writes)]
-        tid = info.get("tid", plains[0][2] if plains and plains[0] is not None and len(plains[0]) >= 3 else 1)
+        tid = info["tid"] if info["tid"] is not None else (plains[0][2] if plains and plains[0] is not None and len(plains[0]) >= 3 else 1)
         if enc:
             wr = [toy(c0 + j, p) if p is not None else b"\xff" for j, p in enumerate(plains)]
-            wctr = ek.counter
+            e1, d1 = ek.counter, dk.counter
         else:
-            wr, wctr = writes, len(writes)
-        out.append(dict(ch=ch, enc=enc, ln=ln, op=op, iid=iid, body=body, c0=c0, tid=tid, read=read, sizes=[len(w) for w in writes],
-                        plains=plains, impl_w=f"ok {wctr} {frs_str(wr)}"))
+            wr = writes
+            vctr["e"] += len(writes)
+            vctr["d"] += st["reads"]
+            e1, d1 = vctr["e"], vctr["d"]
+        out.append(dict(ch=ch, enc=enc, ln=ln, op=op, iid=iid, body=body, c0=c0, d0=d0, e1=e1, d1=d1, tid=tid, read=read, fault=fault,
+                        sizes=[len(w) for w in writes], plains=plains, impl_w=f"ok {e1 if enc else c0 + len(writes)} {frs_str(wr)}",
+                        want=info["want"], resp_frs=info["frs"], acc=dict(acc), unread=len(st["script"] or [])))
+        prev_tid = tid
     return mtu, out
 
 
 def oracle_ble_hist(case, mtu, o):
-    """Every GATT write fits the ATT payload negotiated for the connection - MTU-3, or the backend's larger
-    max_write_without_response_size - whatever was sent before; the accessory reassembles the request."""
+    """(1) every GATT write fits the ATT payload negotiated for the connection - MTU-3, or the backend's larger
+    max_write_without_response_size - whatever was sent before, and the accessory reassembles the request;
+    (2) the response the accessory gave to THIS request (status, body; fragmented its own way) is what ble_request returns,
+    all fragments consumed, and both ends' nonce counters agree afterwards;
+    (3) an answer to another transaction id, or with an undefined status byte, raises ValueError."""
     bad = []
     budget = max(mtu - 3, case["mwwr"] or 0)
     if any(sz > budget for sz in o["sizes"]) or not o["sizes"]:
@@ -517,14 +567,47 @@ def oracle_ble_hist(case, mtu, o):
                     f"(mtu {mtu}, max_write_without_response {case['mwwr']}, {'secure session' if o['enc'] else 'plain'})"))
     if any(p is None for p in o["plains"]):
         bad.append(("ble-session:nonce-sequence", "a written fragment does not open under the accessory's next nonce"))
+        return bad
+    got = ref.acc_reassemble(o["plains"])
+    if got is None or (got[0], got[2], got[3]) != (o["op"], o["iid"], bytes(o["body"])):
+        bad.append(("ble-session:reassembly", f"accessory reassembles {None if got is None else (got[0], got[1], got[2], len(got[3]))} "
+                    f"instead of op {o['op']} iid {o['iid']} {len(o['body'])} bytes"))
+        return bad
+    if o["fault"] == "stale":
+        if o["read"] != "err value":
+            bad.append(("ble-session:stale-response-accepted", f"an answer carrying another transaction id is returned as this request's: {o['read'][:60]}"))
+    elif o["fault"] == "badstatus":
+        if o["read"] != "err value":
+            bad.append(("ble-session:undefined-status-accepted", f"a response with an undefined status byte is read as {o['read'][:60]}"))
     else:
-        got = ref.acc_reassemble(o["plains"])
-        if got is None or (got[0], got[2], got[3]) != (o["op"], o["iid"], bytes(o["body"])):
-            bad.append(("ble-session:reassembly", f"accessory reassembles {None if got is None else (got[0], got[1], got[2], len(got[3]))} "
-                        f"instead of op {o['op']} iid {o['iid']} {len(o['body'])} bytes"))
-    if o["read"] != "ok 0 -":
-        bad.append(("ble-session:response", f"header-only success response read as {o['read'][:60]}"))
+        want = f"ok {o['want'][0]} {hx(o['want'][1])}"
+        if o["read"] != want:
+            bad.append(("ble-session:response-misread", f"the accessory answered status {o['want'][0]} with {len(o['want'][1])} body bytes in "
+                        f"{len(o['resp_frs'])} fragments; ble_request returns {o['read'][:60]}"))
+        elif o["unread"]:
+            bad.append(("ble-session:fragments-left-unread", f"{o['unread']} response fragments left unread"))
+        elif o["enc"] and (o["e1"], o["d1"]) != (o["acc"]["recv"], o["acc"]["send"]):
+            bad.append(("ble-session:counter-desync", f"after the exchange the controller's nonce counters are {(o['e1'], o['d1'])}, the accessory's "
+                        f"{(o['acc']['recv'], o['acc']['send'])}"))
     return bad
+
+
+def hist_segments(outs_):
+    """Maximal runs of fault-free steps on one key session (consecutive encrypted steps) or on the plain link."""
+    segs, cur = [], []
+    for pos, o in enumerate(outs_):
+        if cur and (outs_[cur[-1]]["enc"] != o["enc"]):
+            segs.append(cur)
+            cur = []
+        if o["fault"] is None:
+            cur.append(pos)
+        else:
+            if cur:
+                segs.append(cur)
+            cur = []
+    if cur:
+        segs.append(cur)
+    return segs
 
 
 # ---------------------------------------------------------------- CoAP
@@ -562,6 +645,8 @@ def gen_coap(tier, r):
             kinds = ["ok0", "okN", "err", "wtid", "wctl"]
         for vec in itertools.product(kinds, repeat=n):
             salt += 1
+            if n == 6 and tier == "quick" and salt % 3:
+                continue                 # quick: every third 6-item vector over 5 kinds (thorough: all 6^6)
             if n == 6 and tier == "quick":
                 vec = tuple("errB" if (k == "err" and (salt + j) % 2) else k for j, k in enumerate(vec))
             items = [coap_item(k, i, n, salt) for i, k in enumerate(vec)]
@@ -763,6 +848,11 @@ def gen_coap_dup(tier, r):
         keys = sorted(set(ids))
         cases.append(dict(ids=ids, vec=[r.choice(DUP_KINDS) for _ in range(n)], unknown=r.sample(keys, r.randrange(1, len(keys) + 1)),
                           stream="unknown-write-random"))
+    # which instance ids the controller's accessory database knows on the READ path (find_characteristic_by_iid): all / none /
+    # some - a read of an unknown iid returns the raw bytes and must not touch any cached characteristic
+    for k, c in enumerate(cases):
+        iids = sorted({i for _a, i in c["ids"]})
+        c["known_read"] = [iids, [], iids[:1], iids[1:], [52, 255]][k % 5]
     return cases
 
 
@@ -772,7 +862,8 @@ def dict_canon(d):
         if "status" in v:
             toks.append(f"{k[0]}.{k[1]}=s:{-int(v['status'])}")
         else:
-            toks.append(f"{k[0]}.{k[1]}=v:{hx(v['value'])}")
+            val = v["value"]
+            toks.append(f"{k[0]}.{k[1]}=c{val[1]}:{hx(val[2])}" if isinstance(val, tuple) else f"{k[0]}.{k[1]}=v:{hx(val)}")
     return "ok " + (" ".join(toks) if toks else ".")
 
 
@@ -801,9 +892,34 @@ async def impl_coap_dup(case):
         def raw_value(self):
             return self.value
 
+    cache_log = []
+
+    class ReadChar:
+        """A characteristic of the accessory database as the read path uses it: raw_value is stored (the cached model),
+        value is the converted representation (here: tagged, so that it differs from the raw bytes)."""
+
+        def __init__(self, iid):
+            self.iid = iid
+            self._raw = None
+
+        @property
+        def raw_value(self):
+            return self._raw
+
+        @raw_value.setter
+        def raw_value(self, v):
+            self._raw = bytes(v)
+            cache_log.append(f"{self.iid}:{hx(v)}")
+
+        @property
+        def value(self):
+            return ("conv", self.iid, self._raw)
+
+    db = {iid: ReadChar(iid) for iid in case.get("known_read", [])}
+
     class Info:
         def find_characteristic_by_iid(self, iid):
-            return None
+            return db.get(iid)
 
         def find_characteristic_by_aid_iid(self, aid, iid):
             return None if (aid, iid) in unknown else Char()
@@ -829,6 +945,8 @@ async def impl_coap_dup(case):
         except Exception as e:  # noqa
             tok = "crash" if isinstance(e, (IndexError, AttributeError)) else exc_token(e)
         out[name] = dict(result=tok, wire=[hx(q) for q, _ in log[n0:]], resp=[hx(a) for _, a in log[n0:]])
+        if name == "read":
+            out[name]["cache"] = list(cache_log)
     return out
 
 
@@ -856,13 +974,21 @@ def oracle_coap_dup(case, out):
                         f"{[None if g is None else [(t, i) for _o, t, i, _d in g] for g in got_w]} (tid, iid) instead of one batch "
                         f"with position i = (tid i, iid of ids[i])"))
         d = {}
+        known = set(case.get("known_read", []))
         for i, k in enumerate(ids):
-            if name == "read" or exp[i].startswith("s:"):
+            if name == "read" and vec[i] == "okN" and k[1] in known:
+                d[tuple(k)] = f"c{k[1]}:{exp[i][2:]}"          # converted by the known characteristic
+            elif name == "read" or exp[i].startswith("s:"):
                 d[tuple(k)] = exp[i]
         want = "ok " + (" ".join(f"{k[0]}.{k[1]}={v}" for k, v in sorted(d.items())) if d else ".")
         if o["result"] != want:
             bad.append((f"coap-ids:{name}-misattributed", f"{name} of ids {ids} with per-position outcomes {vec}: result "
                         f"{o['result'][:160]} (want {want[:160]})"))
+        if name == "read" and o["result"].startswith("ok"):
+            want_cache = [f"{k[1]}:{exp[i][2:]}" for i, k in enumerate(ids) if vec[i] == "okN" and k[1] in known]
+            if o["cache"] != want_cache:
+                bad.append(("coap-ids:read-cache", f"read of ids {ids} (database knows iids {sorted(known)}) with outcomes {vec}: cached "
+                            f"characteristic values written {o['cache'][:8]} (want {want_cache[:8]}: position i's value into iid_i only)"))
     return bad
 
 
@@ -929,6 +1055,21 @@ def oracle_coap_request(case, out):
     if req != want_req:
         return [("coap-request:tid-or-order", f"batch request parses as {str(req)[:120]} instead of tid=i/iid_i/data_i")]
     return []
+
+
+def oracle_coap_badstatus(case, out):
+    """Item 0 carries an undefined status byte (> 6).  The batch may be refused as a whole (exception); if results are
+    returned, item 0 must not come back as a body (success) and every other item must carry its own outcome."""
+    bad = oracle_coap_request(case, out)
+    if not out["results"].startswith("ok"):
+        return bad
+    got = out["results"].split(" ")[1:]
+    exp = [ref.coap_expected(i, it) for i, it in enumerate(case["items"])]
+    want = [("b:" + hx(v)) if k == "body" else f"s:{v}" for k, v in exp]
+    if len(got) != len(want) or got[0].startswith("b:") or got[1:] != want[1:]:
+        bad.append(("coap-decode:undefined-status-accepted", f"item 0 answered with undefined status byte {7 + case['mal'][1] % 249}: post_all returns "
+                    f"{out['results'][:120]} (item 0 must be an error or the batch refused; the others {want[1:]})"))
+    return bad
 
 
 def oracle_coap(case, out):
@@ -1271,36 +1412,74 @@ def _run(ctx, tier, seed):
     async def all_hist():
         return [await impl_ble_hist(c, i) for i, c in enumerate(hist_cases)]
     houts = asyncio.run(all_hist())
-    hl = []
-    for c, (mtu, outs_) in zip(hist_cases, houts):
+    # pass 0: the model's fragment sizes; pass 1: per-step writes (swr) and whole fault-free segments (loop);
+    # pass 2: the faulty last step, read with the counters the model's loop ended with
+    fkeys = sorted({(mtu, c["mwwr"] or 0, ov) for c, (mtu, _) in zip(hist_cases, houts) for ov in (0, 16)})
+    fsz = dict(zip(fkeys, [int(x) for x in drv.batch([f"fsz {a} {b} {ov}" for a, b, ov in fkeys])]))
+    hl, loops = [], []
+    for ci, (c, (mtu, outs_)) in enumerate(zip(hist_cases, houts)):
         for o in outs_:
             hl.append(f"swr {'t' if o['enc'] else 'p'} {o['c0']} {mtu} {c['mwwr'] or 0} {o['op']} {o['tid']} {o['iid']} {hx(o['body'])}")
+        for seg in hist_segments(outs_):
+            o0 = outs_[seg[0]]
+            fs = fsz[(mtu, c["mwwr"] or 0, 16 if o0["enc"] else 0)]
+            loops.append((ci, seg, f"loop {'t' if o0['enc'] else 'p'} {o0['c0']} {o0['d0']} " +
+                          " ".join(f"{fs}:{outs_[p]['op']}:{outs_[p]['tid']}:{outs_[p]['iid']}:{hx(outs_[p]['body'])}" for p in seg)))
     hm = drv.batch(hl)
+    lm = drv.batch([l for _, _, l in loops])
+    loop_by_case = {}
+    for (ci, seg, _l), ans in zip(loops, lm):
+        loop_by_case.setdefault(ci, []).append((seg, ans))
+    rd2, rd2_idx = [], []
+    for ci, (c, (mtu, outs_)) in enumerate(zip(hist_cases, houts)):
+        o = outs_[-1]
+        if o["fault"] and o["resp_frs"] is not None:
+            frs = [toy(o["d0"] + j, f) if o["enc"] else f for j, f in enumerate(o["resp_frs"])]
+            rd2.append(f"rd {'t' if o['enc'] else 'p'} {o['d0']} {o['tid']} " + " ".join(hx(f) for f in frs))
+            rd2_idx.append(ci)
+    rd2m = dict(zip(rd2_idx, drv.batch(rd2)))
     j = 0
     for ci, (c, (mtu, outs_)) in enumerate(zip(hist_cases, houts)):
+        hist_txt = [("c%d" % ch) + ("E" if e else "P") + str(ln) for ch, e, ln in c["steps"]]
+        any_orc = False
         for pos, o in enumerate(outs_):
             m = hm[j]
             j += 1
-            desc = dict(stream=c["stream"], mtu=mtu, max_write_without_response=c["mwwr"], failing_step=pos,
-                        history=[dict(char=ch, session="encrypted" if e else "plain", body_len=ln) for ch, e, ln in c["steps"][:pos + 1]])
+            desc = dict(stream=c["stream"], mtu=mtu, max_write_without_response=c["mwwr"], failing_step=pos, fault_on_last_step=c["fault"],
+                        session_start_counters=(c["k0"], c["k0"] + 5), tid=o["tid"],
+                        history=[dict(char=ch, session="encrypted" if e else "plain", body_len=ln) for ch, e, ln in c["steps"][:pos + 1]],
+                        accessory="reference reassembler + ref.demo_answer (status (op+iid+tid)%7, body reversed, iid%5 + (1+tid%7)-byte pieces)")
             orc = oracle_ble_hist(c, mtu, o)
+            any_orc = any_orc or bool(orc)
             for slug, text in orc:
-                add_v(slug, f"step {pos} of history {[('c%d' % ch) + ('E' if e else 'P') + str(ln) for ch, e, ln in c['steps'][:pos + 1]]}: " + text,
+                add_v(slug, f"step {pos} of history {hist_txt[:pos + 1]}: " + text,
                       True, case=desc, impl_sizes=o["sizes"][:40], impl_read=o["read"][:100])
             impl_w = o["impl_w"] if not (o["plains"] == [] and o["read"] in ("crash", "err value")) else o["read"]
-            if not o["enc"]:
-                # the plain model counts writes from 0
-                pass
             if impl_w != m and not orc:
-                add_v("ble-session:model-mismatch", f"step {pos} of history {c['steps'][:pos + 1]} (mtu {mtu}): writes {impl_w[:100]} != model {m[:100]}",
+                add_v("ble-session:model-mismatch", f"step {pos} of history {hist_txt[:pos + 1]} (mtu {mtu}): writes {impl_w[:100]} != model {m[:100]}",
                       False, case=desc, impl=impl_w[:2000], model=m[:2000],
                       broken="correspondence Model/Pdu.v ble_session_write/det_fs <-> ble/bleak.py determine_fragment_size + ble/client.py _write_pdu")
             prev_plain_same_char = any((not e) and ch == o["ch"] for ch, e, _ in c["steps"][:pos])
             cov.case(f"h{ci},{pos}", True,
-                     sample=dict(stream="ble:" + c["stream"], mtu=mtu, mwwr=c["mwwr"], history=[(ch, "E" if e else "P", ln) for ch, e, ln in c["steps"]],
-                                 step=pos, sizes=o["sizes"][:6]) if j % 2503 == 11 else None,
+                     sample=dict(stream="ble:" + c["stream"], mtu=mtu, mwwr=c["mwwr"], history=hist_txt, step=pos, sizes=o["sizes"][:6],
+                                 read=o["read"][:40], fault=o["fault"]) if j % 1201 == 11 else None,
                      hist_len=len(c["steps"]), hist_mtu=mtu, hist_mwwr=c["mwwr"], hist_step_session="enc" if o["enc"] else "plain",
-                     hist_enc_after_plain_same_char=bool(o["enc"] and prev_plain_same_char))
+                     hist_enc_after_plain_same_char=bool(o["enc"] and prev_plain_same_char), hist_fault=o["fault"] or "none",
+                     hist_resp_frags=min(len(o["resp_frs"] or []), 20) if len(o["resp_frs"] or []) < 20 else "20+",
+                     hist_read=o["read"] if not o["read"].startswith("ok") else "ok", hist_k0=c["k0"])
+        # the closed-loop model (ble_loop with demo_responder) against whole fault-free segments of the real session
+        for seg, ans in loop_by_case.get(ci, []):
+            last = outs_[seg[-1]]
+            impl = f"ok {last['e1']} {last['d1']} {last['e1']} {last['d1']} " + " ".join(
+                (f"{outs_[p]['read'][3:].replace(' ', ':')}" if outs_[p]["read"].startswith("ok ") else "!" + outs_[p]["read"]) for p in seg)
+            if impl != ans and not any_orc:
+                add_v("ble-session:loop-model-mismatch", f"history {hist_txt} steps {seg}: session outcomes/counters {impl[:120]} != model ble_loop {ans[:120]}",
+                      False, case=dict(stream=c["stream"], mtu=mtu, mwwr=c["mwwr"], history=hist_txt, steps=seg), impl=impl[:2000], model=ans[:2000],
+                      broken="correspondence Model/Pdu.v ble_loop <-> repeated ble_request on one client with persistent keys")
+        if ci in rd2m and not any_orc and outs_[-1]["read"] != rd2m[ci]:
+            add_v("ble-session:fault-model-mismatch", f"history {hist_txt} fault {c['fault']}: {outs_[-1]['read'][:80]} != model {rd2m[ci][:80]}", False,
+                  case=dict(stream=c["stream"], history=hist_txt, fault=c["fault"]), impl=outs_[-1]["read"][:500], model=rd2m[ci][:500],
+                  broken="correspondence Model/Pdu.v read_pdu <-> ble/client.py _read_pdu on a live session")
 
     # ---- coap
     coap_cases = gen_coap(tier, rng(seed, "c17coap"))
@@ -1325,7 +1504,8 @@ def _run(ctx, tier, seed):
         desc = dict(stream=c["stream"], n=c["n"], vec=c["vec"], iids=c["iids"][:8], aid=c["aid"], op=c["op"],
                     datas=[hx(d)[:40] for d in c["datas"][:8]], items=[(a, b, s, hx(d)[:40]) for a, b, s, d in c["items"][:8]],
                     mal=c["mal"], response=hx(coap_response_bytes(c))[:400])
-        orc = oracle_coap(c, o) if c["stream"] == "outcomes" else oracle_coap_request(c, o)
+        orc = (oracle_coap(c, o) if c["stream"] == "outcomes" else
+               oracle_coap_badstatus(c, o) if c["mal"] and c["mal"][0] == "badstatus" else oracle_coap_request(c, o))
         for slug, text in orc:
             add_v(slug, text, True, case=desc, impl_results=o["results"][:400], impl_exits=o["exits"], impl_request=(o["request"] or "")[:200])
         em = enc_model[i]
@@ -1378,8 +1558,27 @@ def _run(ctx, tier, seed):
     l_exit = [f"cexit {'all' if nm == 'read' else 'err'} {len(c['ids'])} {m_dec[4 * ci + ni][3:]}" if m_dec[4 * ci + ni].startswith("ok") else "bad"
               for ci, c in enumerate(dup_cases) for ni, nm in enumerate(names)]
     m_exit = drv.batch(l_exit)
+    l_crd = [(f"crd {','.join(str(i) for i in c['known_read']) or '.'} {','.join(f'{a}:{i}' for a, i in c['ids'])} {m_dec[4 * ci][3:]}"
+              if m_dec[4 * ci].startswith("ok") else "bad") for ci, c in enumerate(dup_cases)]
+    m_crd = drv.batch(l_crd)
+
+    def crd_canon(ans):
+        """model entries (ordered, dec = identity) -> dict last-wins with the Value TLV taken out by the reference; cache writes."""
+        if not ans.startswith("ok"):
+            return ans, None
+        ent, _, wr = ans[3:].partition(" | ")
+        d = {}
+        for tok in ent.split(" "):
+            if tok == ".":
+                continue
+            k, rr = tok.split("=")
+            kind, _, h = rr.partition(":")
+            d[tuple(int(x) for x in k.split("."))] = rr if kind == "s" else (("v" if kind == "r" else kind) + ":" + hx(tlv_value(unhx(h)) or b""))
+        cache = [f"{t.split(':')[0]}:{hx(tlv_value(unhx(t.split(':')[1])) or b'')}" for t in wr.split(" ") if t != "."]
+        return "ok " + (" ".join(f"{k[0]}.{k[1]}={v}" for k, v in sorted(d.items())) if d else "."), cache
     for ci, (c, o) in enumerate(zip(dup_cases, douts)):
         desc = dict(stream=c["stream"], ids=c["ids"], per_position_outcomes=c["vec"], unknown_to_controller=c.get("unknown", []),
+                    read_path_known_iids=c["known_read"],
                     accessory="answers wire position j with value a0+j|iid (okN), empty (ok0), status 1+j%6 (err), tid+1 (wtid), control 0 (wctl)")
         orc = oracle_coap_dup(c, o)
         for slug, text in orc:
@@ -1394,6 +1593,12 @@ def _run(ctx, tier, seed):
                       case=desc, impl=wire[:1000], model=m_enc[j][:1000],
                       broken="correspondence Model/Pdu.v coap_encode_all <-> coap/connection.py request construction")
             mm = model_pairs_canon(m_exit[j], c["ids"]) if m_dec[j].startswith("ok") else m_dec[j]
+            if nm == "read" and m_dec[j].startswith("ok"):
+                mm, mcache = crd_canon(m_crd[ci])
+                if mcache is not None and o[nm]["result"].startswith("ok") and o[nm]["cache"] != mcache and not orc:
+                    add_v("coap-ids:read-cache:model-mismatch", f"read of ids {c['ids']}: cache writes {o[nm]['cache'][:6]} != model {mcache[:6]}", False,
+                          case=desc, impl=o[nm]["cache"], model=mcache,
+                          broken="correspondence Model/Pdu.v coap_read_exit <-> coap/connection.py _read_characteristics_exit")
             if o[nm]["result"] != mm and not any(sl.startswith(f"coap-ids:{nm}") for sl, _ in orc):
                 add_v(f"coap-ids:{nm}:model-mismatch", f"{nm} of ids {c['ids']}: {o[nm]['result'][:100]} != model {mm[:100]}", False,
                       case=desc, impl=o[nm]["result"][:1000], model=mm[:1000],
@@ -1402,6 +1607,7 @@ def _run(ctx, tier, seed):
         iid_rep = len(c["ids"]) - len({k[1] for k in c["ids"]})
         cov.case(f"u{c['ids']},{c['vec']},{c.get('unknown')}", True,
                  sample=dict(stream="coap:" + c["stream"], ids=c["ids"], outcomes=c["vec"], read=o["read"]["result"][:80]) if ci % 1501 == 7 else None,
+                 dup_read_known=["all", "none", "first", "rest", "fixed"][ci % 5], dup_cache_writes=min(len(o["read"].get("cache", [])), 6),
                  dup_stream=c["stream"], dup_unknown_keys=len(c.get("unknown", [])), dup_write=o["write"]["result"].split(" ")[0],
                  dup_n=len(c["ids"]), dup_repeated_keys=min(nrep, 4), dup_repeated_iids=min(iid_rep, 4),
                  dup_repeat_followed=any(c["ids"][i][1] in [k[1] for k in c["ids"][:i]] and i + 1 < len(c["ids"]) for i in range(len(c["ids"]))))
@@ -1427,12 +1633,13 @@ def _run(ctx, tier, seed):
         "(body content is a fixed pattern: the code is content independent); ble response: every composition of bodies of "
         f"length 0..{9 if tier == 'quick' else 13} into fragments, every <=3-piece cut up to {24 if tier == 'quick' else 40} bytes, every position x 3 deltas of a "
         "wrong tid and every position of a missing flag in every fragmentation of 4- and 6-byte bodies, all 256 continuation "
-        "control bytes; ble histories: every history of 1..3 requests over {2 characteristics} x {plain, secure session} x "
-        "{0, 80, 300}-byte bodies on ONE real AIOHomeKitBleakClient object (its own determine_fragment_size), MTUs 100..515; "
+        "control bytes; ble histories: every history of 1..2 (thorough: 1..3; quick: every 4th 3-step one) requests over "
+        "{2 characteristics} x {plain, secure session} x {0, 80, 300}-byte bodies on ONE real AIOHomeKitBleakClient object (its own "
+        "determine_fragment_size, persistent session keys, responses fragmented by the demo accessory), MTUs 100..515; "
         "coap ids: every id vector over {(1,52),(1,53),(2,52)} for n = 1..4 x every {okN,err} outcome vector "
         "(+2 mixed) through read/write/subscribe/unsubscribe against an accessory that answers per wire position; "
         f"coap: every outcome vector over {{ok0, okN, err, errB, wrong-tid, wrong-control}} for n = 1..{5 if tier == 'quick' else 6}"
-        + (" and over 5 kinds for n = 6" if tier == "quick" else ""))
+        + (" and every third vector over 5 kinds for n = 6; the encrypted half of the fs x len grid on every third cell" if tier == "quick" else ""))
     cov.extra["domain"] = ("oracle claims: BLE requests with fs >= 8, body <= 65535 bytes, iid <= 65535; responses whose first fragment "
                            "carries the 5-byte header and whose status byte is 0..6; CoAP items with status 0..6 (an undefined status "
                            "byte makes PDUStatus() raise ValueError for the whole batch: compared with the model only, not claimed)")
